@@ -3,6 +3,7 @@ package an
 import (
 	"fmt"
 	"go/types"
+	"regexp"
 	"strings"
 
 	"golang.org/x/tools/go/ssa"
@@ -102,6 +103,27 @@ func runC17(w *World) *Result {
 	}
 	r.Analysed["bash_line_variants"] = len(b.Lines)
 	c08Quote(w, b, r, func(m string) bool { return m == "WriteFile" || m == "ReadFile" || m == "Exists" || m == "FuncCall" }) // paths and contents also travel as function arguments
+	// read: what is handed back is the file without its final line terminator – exactly one.
+	// A plain command substitution removes every trailing newline.
+	r.Rule("R-C17-read", "read returns the file's content minus exactly one final newline (a plain $(cat file) removes all trailing newlines: empty lines at the end are lost)", 1)
+	seenRead := false
+	for _, l := range b.LinesOf("ReadFile") {
+		if l.Bash == nil {
+			continue
+		}
+		txt := l.Variant.String()
+		if !strings.Contains(txt, "$(") || seenRead {
+			continue
+		}
+		seenRead = true
+		key := "read:bash:trailing-newlines"
+		guarded := regexp.MustCompile(`\$\([^)]*(;|&&) *(echo|printf) [^)]*\)`).MatchString(txt) // sentinel idiom: $(cat f; echo x) then strip
+		if guarded {
+			r.Ok("R-C17-read", key, w.Pos(l.Em.Pos), "the substitution ends with a sentinel, so trailing newlines of the file survive: "+txt)
+		} else {
+			r.Bad("R-C17-read", key, w.Pos(l.Em.Pos), "the file is read through a plain command substitution, which drops every trailing newline: after write(p, \"a\"); write(p, \"\", true) read(p) yields \"a\" instead of \"a\\n\" — "+txt)
+		}
+	}
 	rule := "R-C17-append"
 	trueStr, falseStr, ok := w.BoolStrings()
 	if !ok {
